@@ -524,6 +524,9 @@ func runFedStop(events int) []string {
 }
 
 func exec(kind string, in []string) []string {
+	if kind == "wslong" {
+		return runWSLong(in[0], vh.AtoI(in[1]), vh.AtoI(in[2]))
+	}
 	if kind == "ws" {
 		return runWS(vh.AtoI(in[0]), in[1], in[2], vh.AtoI(in[3]), vh.AtoI(in[4]), vh.AtoI(in[5]))
 	}
